@@ -21,7 +21,7 @@ import vlib
 
 LEVEL = "proof"
 
-NASTY = [b"100%", b"50%\"off", b"pct%\\back", b"%", b"a b", b"q\"uote", b"back\\slash", b"tab\there", b"\xff\xfe\xfd", b"caf\xc3\xa9", b"\xe2\x88\x9e", b"[1]", b"x|y", b"*star*",
+NASTY = [b"x\\u003cy", b"amp\\u0026", b"lt<gt>amp&", b"\\u2028", b"\\n\\t", b"100%", b"50%\"off", b"pct%\\back", b"%", b"a b", b"q\"uote", b"back\\slash", b"tab\there", b"\xff\xfe\xfd", b"caf\xc3\xa9", b"\xe2\x88\x9e", b"[1]", b"x|y", b"*star*",
          b"(paren)", b"semi;colon", b"new\nline", b"\x01\x02ctl", b"l" * 300, b"trailing ", b" leading", b"'single'", b"#hash", b"$var",
          b"^{tree}", b"a:b", b"..", b"@{0}", b"\x7f", b"100%_done", b"a%sb%d", b"%%", b"%!s(MISSING)", b"{0}", b"\\n"]
 
@@ -139,7 +139,8 @@ def run(ctx):
         keys1x = set(json.loads(outX1)) - {"reference_groups"}
         keys2x = {k for k in json.loads(outX2) if not k.startswith("refgroup.")}
         for it in range(40 if quick else 600):
-            sc, names = gen_named(rng, force=b"new\nline" if it == 1 else None)   # the known finding is exhibited on every run
+            # the known finding (LF) is exhibited on every run; every other hostile name is the cited one in turn
+            sc, names = gen_named(rng, force=b"new\nline" if it == 1 else NASTY[(it * 7) % len(NASTY)])
             has_lf = any(b"\n" in n for n in names)
             lf_cases += has_lf
             cfg = []
